@@ -12,7 +12,7 @@ SORT_SKIP_FUNCS = CP.SORT_SKIP_FUNCS
 STUBS = CP.STUBS
 ASSUMPTIONS = CP.ASSUMPTIONS + ["what-if: every edge weight replaced by an arbitrary non-negative integer (fresh solver "
                                 "variable) before critical_path() is called again; not all weights zero"]
-BUDGET_S = {"quick": 540, "thorough": 3300}
+BUDGET_S = {"quick": 540, "thorough": 1200}
 BOUNDS = {
     "quick": "graphs of 6 structures (0..2 launch/kernel pairs, a stream synchronisation) over the whole-trace and the "
              "ProfilerStep window, real networkx dag_longest_path on symbolic weights; what-if: ALL edges of the graphs of 4 "
